@@ -120,6 +120,16 @@ def oracle(case: dict) -> Outcome:
     numel = math.prod(shape)
     fsdp, hsdp = _impls()
     step = int(case.get("stride", 1))
+    if numel == 0:
+        # a shape with a zero-size dimension (nn.Linear(0, k), an expert that owns no rows): its only range is the empty one -> no blocks, no error
+        out.classes += ["zero_size_shape", "empty_range", f"order{len(shape)}"]
+        out.nontrivial = True
+        empty = torch.empty(0, dtype=dtype)
+        for name, fn in (("fsdp", fsdp), ("hsdp", hsdp)):
+            ok, r = call_sut(out, "C15.call", f"{name.upper()}._split_tensor_block_recovery (zero-size shape)", lambda fn=fn: fn(empty, torch.Size(shape), 0, 0))
+            if ok and len(r) != 0:
+                out.fail("C15.v.empty", f"{name}: empty range yields blocks", observed=[tuple(t.shape) for t in r])
+        return out
     if step == 1:
         base = torch.arange(-off, numel + 3 - off, dtype=torch.float64).to(dtype) if off else torch.arange(0, numel + 3, dtype=torch.float64).to(dtype)
         # shard holds the values start..end-1 (exactly representable for the sizes used) and sits at storage offset off+start
@@ -274,6 +284,9 @@ def _shapes(max_numel: int, max_order: int = 5, max_dim: int = 8) -> list[tuple[
 def enumerate_cases(tier: str, i: int, n: int) -> Iterator[dict]:
     max_numel = 24 if tier == "quick" else 48
     shapes = _shapes(max_numel)
+    if i == 0:
+        for zshape in [(0,), (0, 3), (3, 0), (2, 0, 2), (0, 0), (1, 0), (0, 1), (2, 3, 0), (0, 2, 3), (1, 1, 0, 2), (2, 2, 2, 2, 0)]:
+            yield {"shape": list(zshape), "start": 0, "end": 0, "offset": 0, "dtype": "f32", "stride": 1}
     for idx, shape in enumerate(shapes):
         if idx % n != i:
             continue
@@ -298,6 +311,9 @@ def strategy():
                 d = 1
             shape.append(d)
             prod *= d
+        if shape and draw(st.sampled_from([False] * 11 + [True])):
+            shape[draw(st.integers(0, len(shape) - 1))] = 0
+            return {"shape": shape, "start": 0, "end": 0, "offset": 0, "stride": 1, "dtype": draw(st.sampled_from(["f32", "f64", "bf16", "i64"]))}
         numel = prod
         # boundaries biased towards multiples of slice sizes +-1
         specials = {0, numel}
